@@ -38,14 +38,22 @@ CLAIMS = {
              tech="deterministic simulation: HTTP status faults, short reads/chunking, call sequences; reverse transcoder as oracle"),
  "C05": dict(sec="4 C05", text="kwargs-call and request-call put equal decoded requests on the wire (sync and asyncio); mixed call raises ValueError with no attempt event between invoke and raise. Thin: no fault or schedule is expected to change the verdict (stated in DESIGN.md). Exploration level.",
              note="Trusted: simulated channels; valuations sampled by the grammar.",
-             tech="deterministic simulation (thin): history ordering check 'nothing sent before ValueError', sync/asyncio parity"),
+             tech="deterministic simulation: concurrent flattened callers (tasks and threads) with retried faults, history ordering check 'nothing sent before ValueError', sync/asyncio parity"),
  "C06": dict(sec="4 C06", text="x-goog-request-params recorded on every attempt, page fetch and REST request is compared with an independent AIP-4222 evaluator over the spec; the simulation adds the 'every retried attempt / every page / sync-asyncio-REST parity' dimension. Exploration level.",
              note="Trusted: own routing evaluator; simulated channels/adapter; conventional grammar.",
              tech="deterministic simulation: retried attempts and page fetches across three client flavours, independent AIP-4222 evaluator"),
  "C17": dict(sec="4 C17", text="Exposure set (introspection) vs YAML-derived set, then every exposed mixin RPC is called in the simulated world (gRPC path/types/routing header, REST verb/path/body), under two hash seeds. Thin: the simulation adds only asyncio/REST/attempt coverage. Exploration level.",
              note="Trusted: fixed table of the ten mixin RPCs; simulated channels/adapter.",
-             tech="deterministic simulation (thin): mixin RPCs called on simulated channels/adapter, YAML-derived oracle"),
+             tech="deterministic simulation: mixin RPCs called on simulated channels/adapter with injected statuses and shared caller metadata, YAML-derived oracle, two hash seeds"),
 }
+COMMON = (" As built (DESIGN.md sections 12 and 15) every run may also have: real caller threads sharing a sync/REST client (baton passing at I/O "
+          "seams, seeded pre-emption between lines of emitted code, cooperative locks), cancellation of an asyncio caller, request objects edited in "
+          "place and re-submitted, several clients per process and earlier runs of the same world, a generator process that served unrelated / "
+          "edited / failed generations before, DEBUG logging, and on REST HTML/empty error bodies, lost reply bodies and 401 refresh-and-resend.")
+COMMON_C10 = (" As built: documented protos (source_code_info), reuse patterns pairing a request with its own edited or failed twin (incl. a generation "
+              "that dies inside API.build), build-worker interpreters generating every request in four orders, vendored cwd, chdir between generations.")
+
+
 def main():
     checks = []
     for pid in sorted(CLAIMS):
@@ -58,7 +66,7 @@ def main():
             "evidence_file": f"/verif/evidence/{pid}.json",
             "replay_cmd_template": f"/venv/bin/python check.py {pid} --replay {{path}}",
             "engine": "dsim",
-            "level_claimed": {"category": "exploration", "text": c["text"], "design_ref": c["sec"]},
+            "level_claimed": {"category": "exploration", "text": c["text"] + (COMMON if pid != "C10" else COMMON_C10), "design_ref": c["sec"]},
             "level_note": c["note"],
             "technique": c["tech"],
         })
